@@ -260,3 +260,241 @@ def install(ctx):
     sites["repack"] = wrap_function(task_repack, "repack", generic("repack", post_repack))
     sites["condense"] = wrap_function(task_condense, "condense", generic("condense", post_condense))
     return sites
+
+
+# ============================================================================ split / join
+def parse_datetime(date, tstr):
+    """Numeric acquisition time in seconds (date + HH:MM:SS[.fff]) - independent of dclab."""
+    import calendar
+    import time as _time
+    st = _time.strptime(date + tstr[:8], "%Y-%m-%d%H:%M:%S")
+    t = float(_time.mktime(st))
+    if len(tstr) > 8:
+        t += float(tstr[8:])
+    return t
+
+
+def check_split(ctx, path_in, parts, split_events, skip_initial, skip_final, witness=None):
+    import h5py
+    import dclab
+    from .export import expected_feature, UINT32, UINT64
+    diffs = []
+    with dclab.new_dataset(path_in) as ds:
+        n = len(ds)
+        keep = np.ones(n, bool)
+        if "image" in ds.features_innate:
+            if skip_initial and np.all(np.asarray(ds["image"][0]) == 0):
+                keep[0] = False
+            if skip_final and np.all(np.asarray(ds["image"][n - 1]) == 0):
+                keep[n - 1] = False
+        if skip_initial and "contour" in ds.features_innate \
+                and np.all(np.asarray(ds["contour"][0]) == 0):
+            keep[0] = False
+        feats = list(ds.features_innate)
+        nparts = -(-n // split_events)
+        if len(parts) != nparts:
+            diffs.append({"n_parts": len(parts), "expected": nparts})
+        pos = 0
+        for k, pp in enumerate(parts):
+            window = np.arange(k * split_events, min((k + 1) * split_events, n))
+            idx = window[keep[window]]
+            with h5py.File(pp, "r") as hp:
+                ev = hp["events"] if "events" in hp else {}
+                cnt = hp.attrs.get("experiment:event count", 0) if len(ev) else 0
+                if cnt > split_events:
+                    diffs.append({"part": k, "events": int(cnt), "requested_max": split_events})
+                if len(idx) == 0:
+                    continue
+                for f in feats:
+                    if f == "index" or f.startswith("basinmap"):
+                        continue
+                    exp = expected_feature(ds, f, idx)
+                    if f not in ev:
+                        diffs.append({"part": k, "feature": f, "missing": True})
+                        continue
+                    if f == "trace":
+                        for t in exp:
+                            if t not in ev[f] or not dscmp.arr_equal(ev[f][t][:], exp[t]):
+                                diffs.append({"part": k, "trace": t})
+                    elif f == "contour":
+                        if len(ev[f]) != len(exp) or any(
+                                not dscmp.arr_equal(ev[f][str(i)][:], c)
+                                for i, c in enumerate(exp)):
+                            diffs.append({"part": k, "feature": f})
+                    else:
+                        got = ev[f][:]
+                        e = np.asarray(exp)
+                        if f == "mask":
+                            got, e = got.astype(bool), e.astype(bool)
+                        elif got.dtype.kind in "ui" and got.dtype != e.dtype:
+                            if not wmon.representable(e, got.dtype):
+                                ctx.count("skipped_unrepresentable_unsigned_feature")
+                                continue
+                            e = e.astype(got.dtype)
+                        if not dscmp.arr_equal(got, e):
+                            diffs.append({"part": k, "feature": f,
+                                          "diff": dscmp.first_diff(got, e)})
+                if "index" in ev:
+                    if not np.array_equal(ev["index"][:], np.arange(1, len(idx) + 1)):
+                        diffs.append({"part": k, "index": ev["index"][:10].tolist()})
+                lg = hp["logs"] if "logs" in hp else {}
+                for name in ds.logs.keys():
+                    if f"src_{name}" not in lg:
+                        diffs.append({"part": k, "log_missing": name})
+    ctx.check("c09.split.partition", not diffs,
+              lambda: dict(witness or {}, diffs=diffs[:6], n_diffs=len(diffs)),
+              message=f"split: parts do not partition the input: {diffs[:2]}")
+
+
+def check_join(ctx, paths_in, path_out, witness=None):
+    import h5py
+    import dclab
+    diffs = []
+    dss = [dclab.new_dataset(p) for p in paths_in]
+    try:
+        keys = [parse_datetime(d.config["experiment"]["date"], d.config["experiment"]["time"])
+                for d in dss]
+        order = sorted(range(len(dss)), key=lambda i: keys[i])   # stable: ties in given order
+        ties = len(set(keys)) < len(keys)
+        sdss = [dss[i] for i in order]
+        t0 = keys[order[0]]
+        feats = [f for f in sorted(sdss[0].features_innate)
+                 if all(f in d.features for d in sdss[1:])]
+        with h5py.File(path_out, "r") as ho:
+            ev = ho["events"] if "events" in ho else {}
+            got_feats = sorted(f for f in ev if not (f == "trace" and len(ev[f]) == 0))
+            if got_feats != sorted(feats):
+                diffs.append({"features_out": got_feats, "expected_common": sorted(feats)})
+            ntot = sum(len(d) for d in sdss)
+            for f in feats:
+                if f not in ev:
+                    continue
+                if f == "index":
+                    if not np.array_equal(ev[f][:], np.arange(1, ntot + 1)):
+                        diffs.append({"feature": "index", "head": ev[f][:10].tolist()})
+                    continue
+                if f == "index_online":
+                    ctx.count("skipped_index_online_not_in_statement")
+                    continue
+                if f == "trace":
+                    for t in ev[f]:
+                        exp = np.concatenate([np.asarray(d["trace"][t][:]) for d in sdss])
+                        if not dscmp.arr_equal(ev[f][t][:], exp):
+                            diffs.append({"trace": t, "diff": dscmp.first_diff(ev[f][t][:], exp)})
+                    continue
+                if f == "contour":
+                    exp = [np.asarray(d["contour"][i]) for d in sdss for i in range(len(d))]
+                    if len(ev[f]) != len(exp) or any(
+                            not dscmp.arr_equal(ev[f][str(i)][:], c) for i, c in enumerate(exp)):
+                        diffs.append({"feature": "contour"})
+                    continue
+                parts = []
+                for d, i in zip(sdss, order):
+                    a = np.asarray(d[f][:])
+                    dt = keys[i] - t0
+                    if f == "time":
+                        a = a + dt
+                    elif f == "frame":
+                        fr = d.config["imaging"]["frame rate"]
+                        a = a.astype(np.uint64) + np.uint64(round(dt * fr))
+                    parts.append(a)
+                exp = np.concatenate(parts)
+                got = ev[f][:]
+                if f == "mask":
+                    got, exp = got.astype(bool), exp.astype(bool)
+                elif got.dtype.kind in "ui" and got.dtype != exp.dtype:
+                    if not wmon.representable(exp, got.dtype):
+                        ctx.count("skipped_unrepresentable_unsigned_feature")
+                        continue
+                    exp = exp.astype(got.dtype)
+                if f == "time":
+                    ok = got.shape == exp.shape and np.allclose(got, exp, rtol=0, atol=1e-6,
+                                                                equal_nan=True)
+                else:
+                    ok = dscmp.arr_equal(got, exp)
+                if not ok:
+                    diffs.append({"feature": f, "diff": dscmp.first_diff(got, exp)})
+            lg = ho["logs"] if "logs" in ho else {}
+            for k, d in enumerate(sdss):
+                for name in d.logs.keys():
+                    oname = f"src-#{k + 1}_{name}"
+                    if oname not in lg:
+                        diffs.append({"log_missing": oname})
+                    else:
+                        got = [x.decode("utf-8", "replace") if isinstance(x, bytes) else x
+                               for x in lg[oname][:]]
+                        if got != list(d.logs[name]):
+                            diffs.append({"log_differs": oname})
+    finally:
+        for d in dss:
+            d.close()
+    ctx.check("c09.join.concatenation", not diffs,
+              lambda: dict(witness or {}, diffs=diffs[:6], n_diffs=len(diffs), ties=ties,
+                           order=order),
+              message=f"join: output is not the chronological concatenation: {diffs[:2]}")
+
+
+def install_split_join(ctx):
+    set_ctx(ctx)
+    import dclab.cli as cli
+    from dclab.cli import task_split, task_join
+    from ..contracts import wrap_function
+    if getattr(cli, "_vmon_split_join", False):
+        return
+    cli._vmon_split_join = True
+
+    def mk_split(orig):
+        sig = inspect.signature(orig)
+
+        @functools.wraps(orig)
+        def split(*a, **kw):
+            ctx = _ctx
+            ba = sig.bind(*a, **kw)
+            ba.apply_defaults()
+            p = ba.arguments
+            pin = pathlib.Path(p["path_in"]) if p["path_in"] is not None else None
+            sha = sha256(pin) if ctx is not None and pin is not None and pin.is_file() else None
+            res = orig(*a, **kw)
+            if sha is not None:
+                try:
+                    ctx.check("c09.split.input_unmodified", sha256(pin) == sha,
+                              {"input": str(pin)}, message="split modified its input")
+                    pout = pin.parent if p["path_out"] in ["SAME", None] \
+                        else pathlib.Path(p["path_out"])
+                    parts = sorted(pout.glob(f"{pin.stem}_[0-9][0-9][0-9][0-9].rtdc"))
+                    if pin.suffix == ".rtdc":
+                        check_split(ctx, pin, parts, p["split_events"],
+                                    p["skip_initial_empty_image"], p["skip_final_empty_image"],
+                                    witness={"input": pin.name, "split_events": p["split_events"]})
+                except Exception as exc:
+                    ctx.error("cli_tasks.split.post", exc)
+            return res
+        return split
+
+    def mk_join(orig):
+        sig = inspect.signature(orig)
+
+        @functools.wraps(orig)
+        def join(*a, **kw):
+            ctx = _ctx
+            ba = sig.bind(*a, **kw)
+            ba.apply_defaults()
+            p = ba.arguments
+            pins = [pathlib.Path(x) for x in (p["paths_in"] or [])]
+            shas = [sha256(x) for x in pins] if ctx is not None else None
+            res = orig(*a, **kw)
+            if shas is not None and pins:
+                try:
+                    ctx.check("c09.join.inputs_unmodified",
+                              [sha256(x) for x in pins] == shas, {"inputs": [x.name for x in pins]},
+                              message="join modified an input")
+                    if all(x.suffix == ".rtdc" for x in pins):
+                        check_join(ctx, pins, _paths(p["path_out"]),
+                                   witness={"inputs": [x.name for x in pins]})
+                except Exception as exc:
+                    ctx.error("cli_tasks.join.post", exc)
+            return res
+        return join
+
+    wrap_function(task_split, "split", mk_split)
+    wrap_function(task_join, "join", mk_join)
